@@ -3,7 +3,9 @@ package props
 import (
 	"context"
 	"fmt"
+	"go.sia.tech/core/consensus"
 	"go.sia.tech/core/gateway"
+	"go.sia.tech/coreutils/chain"
 	"sort"
 	"time"
 
@@ -88,8 +90,9 @@ func runC12(e *sim.Env) {
 			// never below what the drawn topology needs: a full node refusing a
 			// planned link would leave the network disconnected by configuration
 			// (the caps themselves are C18's subject)
-			syncer.WithMaxOutboundPeers(e.Range(max(2, k-1), 8)),
-			syncer.WithMaxInboundPeers(e.Range(max(2, k-1), 8)),
+			// (k-1 links of the drawn topology plus up to two checkpoint leaves)
+			syncer.WithMaxOutboundPeers(e.Range(max(2, k+1), 8)),
+			syncer.WithMaxInboundPeers(e.Range(max(2, k+1), 8)),
 		}
 	}
 	var nodes []*netNode
@@ -116,6 +119,48 @@ func runC12(e *sim.Env) {
 		}
 		feed(e, "C12", n, target)
 		e.Logf("%s starts on %s", n.name, target.Describe())
+	}
+	// nodes bootstrapped from a v2 checkpoint on the heaviest chain: leaves hanging
+	// off a drawn full node (they have no history below the checkpoint to serve)
+	type cpLink struct {
+		n    *netNode
+		full *netNode
+	}
+	var cpNodes []cpLink
+	if lo := net.Require() + 1; dominant.Height > lo+1 && e.Chance(1, 3) {
+		for i, cnt := 0, e.Range(1, 2); i < cnt; i++ {
+			cp := dominant.Ancestor(uint64(e.Range(int(lo), int(dominant.Height)-1)))
+			if cp.Block.V2 == nil || !cp.Valid() || cp.Parent == nil {
+				continue
+			}
+			st := cp.Parent.L.State
+			disk := simdisk.New()
+			var dbs *chain.DBStore
+			var tipState consensus.State
+			var err error
+			e.Guard("C12.panic", "NewDBStoreAtCheckpoint", func() { dbs, tipState, err = chain.NewDBStoreAtCheckpoint(disk, st, cp.Block, nil) })
+			if err != nil {
+				e.Violationf("C12.checkpoint", "store-refused", "NewDBStoreAtCheckpoint refused the genuine checkpoint %v: %v", cp.Index(), err)
+			}
+			rs := &recStore{DBStore: dbs}
+			cs := &chainSUT{net: net, db: disk, disk: disk, store: rs, cm: chain.NewManager(rs, tipState)}
+			time.Sleep(time.Duration(e.Range(1, 900)) * time.Millisecond)
+			// a full peer drops a peer it shares no sampled history with ("no common
+			// history") - which a freshly bootstrapped node is until it has synced -
+			// so the leaf keeps its normal peer loop (it only knows its one full
+			// node, the drawn topology stays as it is)
+			// ... and a short sync interval, so that its own first sync tick usually
+			// comes before the full node's (which ends in the disconnect); see also
+			// the reconnect loop below
+			n := newNetNode(e, "C12", net, nw, 20+i, nil, cs, append(nodeOpts(), syncer.WithPeerDiscoveryInterval(time.Duration(e.Range(500, 5000))*time.Millisecond), syncer.WithSyncInterval(time.Duration(e.Range(100, 300))*time.Millisecond))...)
+			n.cpHeight = cp.Height
+			nn := n
+			e.OnCleanup(nn.close)
+			cpNodes = append(cpNodes, cpLink{n, nodes[e.Intn(len(nodes))]})
+			hosts = append(hosts, n.host)
+			e.Logf("%s starts from checkpoint %s", n.name, cp.Describe())
+			e.Fault("checkpoint-node")
+		}
 	}
 	// topology
 	var edges [][2]int
@@ -177,6 +222,34 @@ func runC12(e *sim.Env) {
 		}
 	}
 	connect()
+	for _, l := range cpNodes {
+		l.n.ps.AddPeer(l.full.addr)
+		ctx, cancel := context.WithTimeout(context.Background(), 5*time.Second)
+		_, err := l.n.sy.Connect(ctx, l.full.addr)
+		cancel()
+		e.Logf("connect %s -> %s: err=%v", l.n.name, l.full.name, err)
+		nodes = append(nodes, l.n)
+		// the operator's side of a bootstrap: dial the known full node again when
+		// the leaf is alone (the syncer's own loop retries an address only every
+		// five minutes, and every attempt races with the full node's disconnect)
+		leaf, full := l.n, l.full
+		stopRedial := make(chan struct{})
+		e.OnCleanup(func() { close(stopRedial) })
+		go func() {
+			for {
+				select {
+				case <-stopRedial:
+					return
+				case <-time.After(20 * time.Second):
+				}
+				if len(leaf.sy.Peers()) == 0 {
+					ctx, cancel := context.WithTimeout(context.Background(), 5*time.Second)
+					leaf.sy.Connect(ctx, full.addr)
+					cancel()
+				}
+			}
+		}()
+	}
 	// faults for a while, then none
 	if e.Chance(2, 3) && !static {
 		netFaults(e, nw, hosts, time.Duration(e.Range(2, 40))*time.Second)
@@ -275,10 +348,10 @@ var _ = sim.NewEnv
 
 func init() {
 	register(&Prop{
-		ID: "C12", Run: runC12, Quick: 200, Thorough: 6000, Level: "exploration",
-		Rule:        "one run = drawn network, fork tree (1 run in 8 with a 90-230 block stretch beyond the 100-block request split and the exponential history sample) made dominant, 2-5 real nodes (syncer + gateway + mux + manager) each started on its own branch or interior block, a drawn topology (line, star, ring, clique) and connection order, drawn sync interval / discovery interval / MaxSendBlocks / peer limits, per-connection latency and jitter from a seeded PRNG, and for 2 runs in 3 a phase of partitions, heals and connection resets; 1 run in 4 instead keeps the drawn topology static (no peer discovery, no faults) so that nodes not connected to the source depend on the relays; after the last fault every node must, within 45 simulated minutes, sit on the unique sufficiently-heaviest valid chain; in half of the runs above the require height a drawn node then extends the chain by 1-4 blocks and announces the tip (header only / header then outline / outline only) and all nodes must reach it within the same bound, and the C01 audit must hold on every node at every poll; distinct = (regime, topology, size, fault kinds); all completed runs are non-trivial",
+		ID: "C12", Run: runC12, Quick: 1500, Thorough: 30000, Level: "exploration",
+		Rule:        "one run = drawn network, fork tree (1 run in 8 with a 90-230 block stretch beyond the 100-block request split and the exponential history sample) made dominant, 2-5 real nodes (syncer + gateway + mux + manager) each started on its own branch or interior block, a drawn topology (line, star, ring, clique) and connection order, drawn sync interval / discovery interval / MaxSendBlocks / peer limits, per-connection latency and jitter from a seeded PRNG, and for 2 runs in 3 a phase of partitions, heals and connection resets; 1 run in 3 (when the heaviest chain reaches above the require height) adds 1-2 nodes started from a v2 checkpoint on it (chain.NewDBStoreAtCheckpoint), attached to a drawn full node; 1 run in 4 instead keeps the drawn topology static (no peer discovery, no faults) so that nodes not connected to the source depend on the relays; after the last fault every node must, within 45 simulated minutes, sit on the unique sufficiently-heaviest valid chain; in half of the runs above the require height a drawn node then extends the chain by 1-4 blocks and announces the tip (header only / header then outline / outline only) and all nodes must reach it within the same bound, and the C01 audit must hold on every node at every poll; distinct = (regime, topology, size, fault kinds); all completed runs are non-trivial",
 		Real:        []string{"syncer.Syncer (accept/peer/sync loops, parallel sync, relays)", "go.sia.tech/core/gateway + go.sia.tech/mux (real handshake, encryption, framing)", "chain.Manager + chain.DBStore per node"},
 		Stub:        []string{"network: simnet in-memory TCP (seeded per-connection delays, partitions, resets)", "peer store: harness peerStore with real bans", "disk: simdisk.DB"},
-		Assumptions: []string{"goroutine wake-up order is whatever the single-P runtime produces; it is perturbed per seed through drawn network delays, not chosen event by event", "checkpoint-bootstrapped nodes are not part of this check yet"},
+		Assumptions: []string{"goroutine wake-up order is whatever the single-P runtime produces; it is perturbed per seed through drawn network delays, not chosen event by event", "checkpoint-bootstrapped nodes are leaves attached to a full node (they cannot serve history below their checkpoint)"},
 	})
 }
